@@ -49,6 +49,10 @@ def lang_of(stmt):
         return seq_lang(stmt[2])
     if k == "foreach":
         return seq_lang(stmt[1])
+    if k == "if":
+        alts = [seq_lang(b) for _, b in stmt[1]]
+        alts.append(seq_lang(stmt[2]) if stmt[2] is not None else rx.EPS)
+        return rx.alt(*alts)
     if k == "case":
         alts = []
         for pats, prio, body in stmt[2]:
@@ -174,6 +178,12 @@ def find_ambiguity(body, follow, path="body"):
             r = find_ambiguity(s[1], rest_first, here)
             if r:
                 return r
+        elif k == "if":
+            # every branch is feasible (the generator makes the tested variable depend on the input), so each is a possible continuation
+            for bi, b in enumerate([b for _, b in s[1]] + ([s[2]] if s[2] is not None else [])):
+                r = find_ambiguity(b, rest_first, here + ".branch%d" % bi)
+                if r:
+                    return r
         elif k == "case":
             greedy = s[1]
             flat = []
@@ -226,7 +236,7 @@ def free_body(draw, cfg, depth, n_max=4, first_must_match=False):
     n = draw(st.integers(1, n_max))
     out = []
     for i in range(n):
-        kinds = ["match", "match", "match", "optional", "case", "try", "foreach", "gcase"] if depth > 0 else ["match"]
+        kinds = ["match", "match", "match", "optional", "case", "try", "foreach", "gcase", "if"] if depth > 0 else ["match"]
         if i == 0 and first_must_match:
             kinds = ["match"]
         k = draw(st.sampled_from(kinds))
@@ -237,7 +247,11 @@ def free_body(draw, cfg, depth, n_max=4, first_must_match=False):
         elif k == "try":
             out.append(("try", ("nomatch",), draw(free_body(cfg, depth - 1, 2)), ()))
         elif k == "foreach":
-            out.append(("foreach", draw(free_body(cfg, depth - 1, 2, first_must_match=True)), (("assign", "n0", ("num", 1, "dec")),)))
+            out.append(("foreach", draw(free_body(cfg, depth - 1, 2, first_must_match=True)), (("assign", "n1", ("num", 1, "dec")),)))
+        elif k == "if":
+            nb = draw(st.integers(1, 2))
+            branches = tuple((("bin", "==", ("var", "n0"), ("num", j, "dec")), draw(free_body(cfg, depth - 1, 2))) for j in range(nb))
+            out.append(("if", branches, draw(free_body(cfg, depth - 1, 2)) if draw(st.booleans()) else None))
         else:
             greedy = (k == "gcase")
             clauses = []
@@ -249,16 +263,64 @@ def free_body(draw, cfg, depth, n_max=4, first_must_match=False):
     return tuple(out)
 
 
+SELECTOR = ("case", False, tuple(((("lit", bytes([0x30 + j]), "str"),), None, (("assign", "n0", ("num", j, "dec")),)) for j in range(3)))
+
+
+def has_if(body):
+    for s in body:
+        if s[0] == "if":
+            return True
+        if s[0] in ("optional", "foreach") and has_if(s[1]):
+            return True
+        if s[0] == "try" and (has_if(s[2]) or has_if(s[3])):
+            return True
+        if s[0] == "case" and any(has_if(b) for _, _, b in s[2]):
+            return True
+        if s[0] == "if" and (any(has_if(b) for _, b in s[1]) or (s[2] is not None and has_if(s[2]))):
+            return True
+    return False
+
+
+OPEN_HEADS = [("match", ("re", ("op", ("lit", 0x61), "*"), False)), ("match", ("re", ("op", ("set", (("c", 0x61), ("c", 0x62)), False), "+"), False)),
+              ("optional", (("match", ("lit", b"a", "str")),)), ("match", ("re", ("op", ("cls", "w"), "*"), False)),
+              ("match", ("re", ("seq", (("lit", 0x78), ("op", ("set", (("c", 0x61),), True), "*"))), False)), ("optional", (("match", ("lit", b"q", "str")),))]
+BRANCH_STARTS = [("set", (("c", 0x61),), True), ("set", (("c", 0x71),), True), ("set", (("c", 0x61), ("c", 0x62)), True), ("any",), ("cls", "W"), ("cls", "D"),
+                 ("set", (("r", 0x62, 0x7a),), False), ("lit", 0x61), ("lit", 0x71), ("set", (("k", "w"),), True), ("set", (("c", 0x78),), True)]
+
+
+@st.composite
+def if_after_open(draw):
+    """<open-ended statement>; if n0 == 0 { B1 } [elif n0 == 1 { B2 }] [else { B3 }] with branches that begin with (mostly inverted) classes:
+    the byte that ends the open statement must not start any branch."""
+    head = draw(st.sampled_from(OPEN_HEADS))
+    nb = draw(st.integers(1, 3))
+    bodies = []
+    for j in range(nb):
+        first = draw(st.sampled_from(BRANCH_STARTS))
+        tail = ("lit", draw(st.sampled_from(list(b"bcz"))))
+        bodies.append((("match", ("re", ("seq", (first, tail)), False)),))
+    use_else = nb >= 2 and draw(st.booleans())
+    branches = tuple((("bin", "==", ("var", "n0"), ("num", j, "dec")), b) for j, b in enumerate(bodies[:nb - 1 if use_else else nb]))
+    stmt = ("if", branches, bodies[-1] if use_else else None)
+    lead = draw(st.sampled_from([(), (("match", ("lit", b"x", "str")),)]))
+    return (SELECTOR,) + lead + (head, stmt, ("match", ("lit", b";", "str")))
+
+
 @st.composite
 def case_strategy(draw):
     cfg = gen.GenConfig(wide_bytes=0.0)
+    if draw(st.integers(0, 5)) == 0:
+        return draw(if_after_open()), [draw(st.sampled_from(gen.OPT_LEVELS))]
     body = draw(free_body(cfg, draw(st.integers(0, 2))))
+    if has_if(body):
+        # the variable the conditions test is chosen by the first input byte: every branch can be the one taken
+        body = (SELECTOR,) + body
     argv = [draw(st.sampled_from(gen.OPT_LEVELS))]
     return body, argv
 
 
 def check_program(shard, body, argv):
-    prog = ir.Program([("int", "n0", True, None, 0)], [], [], [], [], body, argv)
+    prog = ir.Program([("int", "n0", True, None, 0), ("int", "n1", True, None, 0)], [], [], [], [], body, argv)
     src = prog.source()
     replay = {"source": src, "argv": argv}
     shard.event("evaluations")
